@@ -46,19 +46,23 @@ Fixpoint merge_descs (old : list (nat * sdesc)) (c : list (nat * nat)) (next : n
 Definition stop_gracefully (w : sworker) : sworker :=
   if Nat.eqb (sw_state w) 0 then mkW (sw_desc w) 1 (sw_alive w) else w.
 
-(* first loop of syncWorkers: over the merged descriptors *)
-Fixpoint sync_new (ds : list (nat * sdesc)) (old : list (nat * sworker)) : list (nat * sworker) * list (nat * sworker) :=
+(* first loop of syncWorkers: over the merged descriptors.  [nosink]: the names for which sink.NewSink fails in this
+   round (runWorker returns the error: "Failed to run worker", `continue`): no worker is started, the name gets no
+   entry, a stopped old worker of that name is dropped by the second loop *)
+Definition in_names (n : nat) (l : list nat) : bool := existsb (Nat.eqb n) l.
+Fixpoint sync_new (nosink : list nat) (ds : list (nat * sdesc)) (old : list (nat * sworker)) : list (nat * sworker) * list (nat * sworker) :=
   match ds with
   | [] => ([], [])
   | (n, d) :: tl =>
-      let '(ws, ret) := sync_new tl old in
+      let '(ws, ret) := sync_new nosink tl old in
       match lookup n old with
       | Some w =>
           let w1 := if Nat.eqb (sd_id d) (sw_desc w) then w else stop_gracefully w in
           if Nat.eqb (sw_state w1) 2
-          then ((n, mkW (sd_id d) 0 true) :: ws, (n, w1) :: ret)   (* stopped: a new worker takes its place *)
+          then (if in_names n nosink then (ws, (n, w1) :: ret)
+                else ((n, mkW (sd_id d) 0 true) :: ws, (n, w1) :: ret))   (* stopped: a new worker takes its place *)
           else ((n, w1) :: ws, ret)
-      | None => ((n, mkW (sd_id d) 0 true) :: ws, ret)
+      | None => if in_names n nosink then (ws, ret) else ((n, mkW (sd_id d) 0 true) :: ws, ret)
       end
   end.
 
@@ -74,11 +78,12 @@ Fixpoint sync_deleted (old : list (nat * sworker)) (ds : list (nat * sdesc)) : l
       end
   end.
 
-Definition do_sync (s : sup) : sup :=
+Definition do_sync_f (nosink : list nat) (s : sup) : sup :=
   let '(md, nx) := merge_descs (descs s) (cfg s) (next_id s) in
-  let '(w1, r1) := sync_new md (wmap s) in
+  let '(w1, r1) := sync_new nosink md (wmap s) in
   let '(w2, r2) := sync_deleted (wmap s) md in
   mkSup md (w1 ++ w2) (r1 ++ r2 ++ retired s) (cfg s) (stored s) nx.
+Definition do_sync (s : sup) : sup := do_sync_f [] s.
 
 Fixpoint upd {A} (n : nat) (f : A -> A) (l : list (nat * A)) : list (nat * A) :=
   match l with
@@ -87,12 +92,13 @@ Fixpoint upd {A} (n : nat) (f : A -> A) (l : list (nat * A)) : list (nat * A) :=
   end.
 
 Inductive sev :=
-| SSync (newcfg : option (list (nat * nat)))   (* one tick of runSyncWorkers: Reload (Some = a new configuration) + sync *)
+| SSync (newcfg : option (list (nat * nat))) (nosink : list nat)
+    (* one tick of runSyncWorkers: Reload (Some = a new configuration) + sync; sink.NewSink fails for [nosink] *)
 | SExit (n : nat)                              (* the stopping worker in the map under n sees the flag at its loop head *)
 | SStartFail (n : nat)                         (* getPipe of the running worker under n fails: run returns *)
 | SDeliver (n : nat) (k : nat)                 (* the running worker under n commits k more events to ITS descriptor *)
 | SPersist
-| SRestart (newcfg : list (nat * nat)).        (* the process ends; NewForwarder + init: loadState, sync *)
+| SRestart (newcfg : list (nat * nat)) (nosink : list nat).   (* the process ends; NewForwarder + init: loadState, sync *)
 
 Definition bump (id k : nat) (ds : list (nat * sdesc)) : list (nat * sdesc) :=
   map (fun '(n, d) => if Nat.eqb (sd_id d) id then (n, mkD (sd_id d) (sd_cfg d) (sd_pos d + k)) else (n, d)) ds.
@@ -105,9 +111,9 @@ Fixpoint load_descs (st : list (nat * (nat * nat))) (next : nat) : list (nat * s
 
 Definition sstep (marks : bool) (s : sup) (e : sev) : sup :=
   match e with
-  | SSync nc =>
+  | SSync nc nosink =>
       let s1 := match nc with Some c => mkSup (descs s) (wmap s) (retired s) c (stored s) (next_id s) | None => s end in
-      do_sync s1
+      do_sync_f nosink s1
   | SExit n =>
       mkSup (descs s) (upd n (fun w => if Nat.eqb (sw_state w) 1 then mkW (sw_desc w) 2 false else w) (wmap s))
             (retired s) (cfg s) (stored s) (next_id s)
@@ -122,13 +128,14 @@ Definition sstep (marks : bool) (s : sup) (e : sev) : sup :=
       | None => s
       end
   | SPersist => mkSup (descs s) (wmap s) (retired s) (cfg s) (map (fun '(n, d) => (n, (sd_cfg d, sd_pos d))) (descs s)) (next_id s)
-  | SRestart c =>
+  | SRestart c ns =>
       let '(ld, nx) := load_descs (stored s) (next_id s) in
-      do_sync (mkSup ld [] [] c (stored s) nx)
+      do_sync_f ns (mkSup ld [] [] c (stored s) nx)
   end.
 
 Definition srun (marks : bool) (evs : list sev) (s : sup) : sup := fold_left (sstep marks) evs s.
-Definition sup0 (c : list (nat * nat)) : sup := do_sync (mkSup [] [] [] c [] 0).
+Definition sup0_f (ns : list nat) (c : list (nat * nat)) : sup := do_sync_f ns (mkSup [] [] [] c [] 0).
+Definition sup0 (c : list (nat * nat)) : sup := sup0_f [] c.
 
 (* what the harness sees of a state: per name of the worker map (state, the worker's descriptor is the forwarder's,
    position of the worker's descriptor when current), and the positions of the descriptors *)
